@@ -233,8 +233,12 @@ impl BlockStateTracker {
             let map = Self::map();
             if let Ok(r) = map.read() {
                 if let Some(b) = r.get(&block_id) {
-                    b.is_checkpointed.store(true, Ordering::Release);
-                    Some(b.file_path.clone())
+                    // count a block as consumed only the first time it is marked
+                    if b.is_checkpointed.swap(true, Ordering::AcqRel) {
+                        None
+                    } else {
+                        Some(b.file_path.clone())
+                    }
                 } else {
                     None
                 }
